@@ -80,12 +80,22 @@ def classify(h, r, prop, known):
             if d.startswith("NEVER:") and st == "SATISFIED":
                 fails.append(c)
             elif d.startswith("REACH:") and st != "SATISFIED":
-                out.setdefault("unreached", []).append(d)
+                if not any(re.search(e, d) for e in h.exempt):
+                    out.setdefault("unreached", []).append(d)
             continue
+        if st == "ERROR":
+            out["status"] = "INCONCLUSIVE"
+            out["reasons"].append("solver error (memory/time) before all checks were decided")
+            return out
         if st == "FAILURE":
             fails.append(c)
         elif st == "UNDETERMINED":
             undetermined += 1
+    n_fail_parsed = len([c for c in fails if not kani.is_cover(c)])
+    if (r["failed"] or 0) != n_fail_parsed or (r["verdict_line"] == "FAILED" and not fails):
+        out["status"] = "INCONCLUSIVE"
+        out["reasons"].append("output parser disagrees with Kani's summary (%s failed reported, %d parsed)" % (r["failed"], n_fail_parsed))
+        return out
     canary_hit = False
     for c in fails:
         d = c["desc"]
@@ -305,6 +315,7 @@ def write_evidence(prop, tier, seed, results, wall, violations, inconclusive):
         stubs.update(r["stubs"])
         reach = [d for d, s in covers if d.startswith("REACH:")]
         reach_sat = [d for d, s in covers if d.startswith("REACH:") and s == "SATISFIED"]
+        info_sat = [d for d, s in covers if d.startswith("INFO:") and s == "SATISFIED"]
         if v["status"] in ("PASS", "KNOWN") and reach and len(reach) == len(reach_sat):
             nontrivial += 1
         harnesses.append({
@@ -322,7 +333,7 @@ def write_evidence(prop, tier, seed, results, wall, violations, inconclusive):
         })
         if len(samples) < 6 and reach_sat:
             samples.append({"harness": h.name, "instantiation": h.inst, "bounds": h.bounds,
-                            "reachability_witnesses_found_by_solver": reach_sat[:8],
+                            "reachability_witnesses_found_by_solver": (reach_sat + info_sat)[:12],
                             "verdict": v["status"]})
     if not samples:
         samples = [{"harness": h.name, "verdict": v["status"]} for h, r, v, lp in results[:3]] or [{"note": "no harness ran"}]
